@@ -245,7 +245,7 @@ def classify_while(loop, f, model, cg, sentinel_ok=None):
         tg = top_dec[0].targets[0]
         adv = isinstance(tg, ast.Tuple) and len(tg.elts) == 2 and isinstance(tg.elts[1], ast.Name) \
             and any(isinstance(a, ast.Name) and a.id == tg.elts[1].id for a in call.args)
-        has_exit = (not is_true) or any(isinstance(n, ast.Break) for s in body for n in [s] + list(walk_no_nested(s)))
+        has_exit = (not is_true) or any(isinstance(n, (ast.Break, ast.Return)) for s in body for n in [s] + list(walk_no_nested(s)))
         if not adv:
             return 'T-TLV', False, 'the offset returned by the element decode is not fed back'
         if not has_exit:
